@@ -462,6 +462,9 @@ _more("C17", "Size channel on bare range proofs under SHA-256 / SHA-384 / SHA-51
 _more("C18", "s and e of issued signatures have exactly ls / le bits (sign and sign_multiattr).")
 _more("C19", "Presentation proofs under commitment keys with over-long moduli (N^2, N*2^700+1).")
 
+_more("C02", "For L in 2..=12 the sequence 'smaller lists first, then this list' is also signed and verified on a newly spawned thread "
+      "(all swaps of distinct messages and an extension of every message must be refused there).")
+
 
 def post_C07(drv, res, binary, tier, seed):
     """Cross-process part of the history: the same fixed workload in N independent processes started
